@@ -121,6 +121,18 @@ impl World {
     }
 }
 
+/// the eight points of small order on Curve25519 (compressed Edwards form); [0] is the neutral element
+const SMALL_ORDER: [&str; 8] = [
+    "0100000000000000000000000000000000000000000000000000000000000000",
+    "ecffffffffffffffffffffffffffffffffffffffffffffffffffffffffffff7f",
+    "0000000000000000000000000000000000000000000000000000000000000000",
+    "0000000000000000000000000000000000000000000000000000000000000080",
+    "26e8958fc2b227b045c3f489f2ef98f0d5dfac05d3c63339b13802886d53fc05",
+    "26e8958fc2b227b045c3f489f2ef98f0d5dfac05d3c63339b13802886d53fc85",
+    "c7176a703d4dd84fba3c0b760d10670f2a2053fa2c39ccc64ec7fd7792ac037a",
+    "c7176a703d4dd84fba3c0b760d10670f2a2053fa2c39ccc64ec7fd7792ac03fa",
+]; 
+
 /// A decoded handshake frame of either network.
 #[derive(Clone)]
 enum Typed {
@@ -340,6 +352,34 @@ impl World {
                     proto::consensus::Handshake { session_id: Some(p), genesis: Some(genesis.build()) }.encode_to_vec()
                 }
             }),
+            // a peer that holds NO secret key: a small-order Ed25519 point as public key with the signature (R, S = 0) for
+            // R = the identity resp. the key itself, over the RIGHT session id (such signatures verify for every message
+            // under a verification that does not reject small-order keys); consensus (BLS): the point at infinity as key
+            // and as signature
+            x if x.starts_with("weak_key_") => {
+                let i: usize = x["weak_key_".len()..].parse().expect("index");
+                Malformed::Frame(match &valid {
+                    Typed::G { s, genesis } => {
+                        let key = hex::decode(SMALL_ORDER[i % SMALL_ORDER.len()]).unwrap();
+                        let r = if i >= SMALL_ORDER.len() { key.clone() } else { hex::decode(SMALL_ORDER[0]).unwrap() };
+                        let mut sig = r;
+                        sig.extend_from_slice(&[0u8; 32]);
+                        let mut p = s.build();
+                        if let Some(x) = p.key.as_mut() { x.ed25519 = Some(key); }
+                        if let Some(x) = p.sig.as_mut() { x.ed25519 = Some(sig); }
+                        proto::gossip::Handshake { session_id: Some(p), genesis: Some(genesis.build()), is_static: Some(false), build_version: None }.encode_to_vec()
+                    }
+                    Typed::C { s, genesis } => {
+                        let mut p = s.build();
+                        let klen = p.key.as_ref().and_then(|k| k.bn254.as_ref()).map(|b| b.len()).unwrap_or(96);
+                        let slen = p.sig.as_ref().and_then(|k| k.bn254.as_ref()).map(|b| b.len()).unwrap_or(48);
+                        let inf = |n: usize| { let mut v = vec![0u8; n]; v[0] = 0xc0; v };
+                        if let Some(x) = p.key.as_mut() { x.bn254 = Some(inf(klen)); }
+                        if let Some(x) = p.sig.as_mut() { x.bn254 = Some(inf(slen)); }
+                        proto::consensus::Handshake { session_id: Some(p), genesis: Some(genesis.build()) }.encode_to_vec()
+                    }
+                })
+            }
             x => panic!("bad malformed kind {x}"),
         }
     }
@@ -1700,6 +1740,10 @@ fn directed_hs() -> Vec<Value> {
             v.push(base(0, 4, f(4, 4, "other", "other", 1)));
             for how in MALFORMED.iter().chain(["bad_key"].iter()) {
                 v.push(base(0, 1, json!({"kind": "malformed", "how": how})));
+            }
+            // keys nobody holds the secret of (small-order points / the point at infinity) with their universal signatures
+            for i in 0..16 {
+                v.push(base(0, 1, json!({"kind": "malformed", "how": format!("weak_key_{i}")})));
             }
             if dir == "out" {
                 // reflection of the victim's own frame: dialling its own key (F8), dialling somebody else
